@@ -57,7 +57,7 @@ def PlayerState.rooks_ref_index : Option Int := do
 def PlayerState.pawns_ref_index : Option Int := do
   pure (cast .usize (u64ToInt PAWN))
 
-/-- `fn make_castle(active: &mut PlayerState, rook_source_mask: SquareMaskBits, king_source_mask: SquareMaskBits, rook_target_mask: SquareMaskBits, king_target_mask: SquareMaskBits,)` in `impl Bitboard` (board/src/board.rs:800).
+/-- `fn make_castle(active: &mut PlayerState, rook_source_mask: SquareMaskBits, king_source_mask: SquareMaskBits, rook_target_mask: SquareMaskBits, king_target_mask: SquareMaskBits,)` in `impl Bitboard` (board/src/board.rs:792).
 * `active` = parameter `active: PlayerState`
 * `rook_source_mask` = parameter `rook_source_mask: u64`
 * `king_source_mask` = parameter `king_source_mask: u64`
@@ -88,7 +88,7 @@ def Bitboard.make_castle (active : Inkayaku.Rs.PlayerState) (rook_source_mask : 
   let active := { active with occupancy := array_16 }
   pure active
 
-/-- `fn unmake_castle(active: &mut PlayerState, rook_source_mask: SquareMaskBits, king_source_mask: SquareMaskBits, rook_target_mask: SquareMaskBits, king_target_mask: SquareMaskBits,)` in `impl Bitboard` (board/src/board.rs:815).
+/-- `fn unmake_castle(active: &mut PlayerState, rook_source_mask: SquareMaskBits, king_source_mask: SquareMaskBits, rook_target_mask: SquareMaskBits, king_target_mask: SquareMaskBits,)` in `impl Bitboard` (board/src/board.rs:807).
 * `active` = parameter `active: PlayerState`
 * `rook_source_mask` = parameter `rook_source_mask: u64`
 * `king_source_mask` = parameter `king_source_mask: u64`
@@ -100,7 +100,7 @@ def Bitboard.unmake_castle (active : Inkayaku.Rs.PlayerState) (rook_source_mask 
   let active ← Bitboard.make_castle active rook_target_mask king_target_mask rook_source_mask king_source_mask
   pure active
 
-/-- `fn make(&mut self, mv: Move)` in `impl Bitboard` (board/src/board.rs:661).
+/-- `fn make(&mut self, mv: Move)` in `impl Bitboard` (board/src/board.rs:653).
 * `white` = field `self.white: PlayerState`
 * `black` = field `self.black: PlayerState`
 * `turn` = field `self.turn: u32`
@@ -235,7 +235,7 @@ def Bitboard.make (white : Inkayaku.Rs.PlayerState) (black : Inkayaku.Rs.PlayerS
         let passive := { passive with occupancy := array_41 }
         pure ((if borrow_cond_1 then passive else active), (if borrow_cond_1 then active else passive), turn, en_passant_square_shift, fullmove_clock, halfmove_clock)
 
-/-- `fn unmake(&mut self, mv: Move)` in `impl Bitboard` (board/src/board.rs:734).
+/-- `fn unmake(&mut self, mv: Move)` in `impl Bitboard` (board/src/board.rs:726).
 * `white` = field `self.white: PlayerState`
 * `black` = field `self.black: PlayerState`
 * `turn` = field `self.turn: u32`
